@@ -140,8 +140,8 @@ def parse_state(text):
     return out
 
 
-_NODE = re.compile(r'^(-?\d+) \[label="(.*?)"(,style = filled)?[,\]]')
-_EDGE = re.compile(r'^(-?\d+) -> (-?\d+) \[label="(.*?)"')
+_NODE = re.compile(r'^(-?\d+) \[label="((?:[^"\\]|\\.)*)"(,style = filled)?[,\]]')
+_EDGE = re.compile(r'^(-?\d+) -> (-?\d+) \[label="((?:[^"\\]|\\.)*)"')
 
 
 def _unescape(s):
